@@ -58,8 +58,23 @@ def coq_list(items):
 
 
 # ---------------------------------------------------------------- building
+def cleanup_coqcases():
+    """remove generated case files left behind by runs that were killed (file names carry the pid of their run)"""
+    d = os.path.join(BUILD, "coqcases")
+    if not os.path.isdir(d):
+        return
+    for fn in os.listdir(d):
+        m = re.match(r"\.?[a-z0-9]+_(\d+)_", fn)
+        if m and not os.path.exists("/proc/%s" % m.group(1)):
+            try:
+                os.remove(os.path.join(d, fn))
+            except OSError:
+                pass
+
+
 def build_harness():
     os.makedirs(BUILD, exist_ok=True)
+    cleanup_coqcases()
     hdir = os.path.join(VERIF, "harness")
     if REPO != "/repo":
         # scratch copy of the harness pointing at another tree
@@ -190,8 +205,10 @@ def coq_eval(imports, defs, exprs_type, exprs, timeout=1800, shard=400, label="c
         return (k, p, path, time.time())
 
     pending = list(range(len(shards)))
+    retries = {}
+    maxpar = NPROC
     while pending or running:
-        while pending and len(running) < NPROC:
+        while pending and len(running) < maxpar:
             running.append(start(pending.pop(0)))
         still = []
         for (k, p, path, t0) in running:
@@ -203,8 +220,15 @@ def coq_eval(imports, defs, exprs_type, exprs, timeout=1800, shard=400, label="c
                 continue
             out = open(path[:-2] + ".out", "rb").read()
             err = open(path[:-2] + ".err", "rb").read()
+            if p.returncode < 0 and retries.get(k, 0) < 4:
+                # killed by a signal (typically the kernel's out-of-memory killer): evaluate the shard again, with fewer processes at once
+                retries[k] = retries.get(k, 0) + 1
+                maxpar = max(2, maxpar // 2)
+                pending.insert(0, k)
+                time.sleep(5)
+                continue
             if p.returncode != 0:
-                raise CheckError("coqc failed on generated cases file %s:\n%s" % (path, err.decode(errors="replace")[-3000:]))
+                raise CheckError("coqc failed (exit status %d) on generated cases file %s:\n%s" % (p.returncode, path, err.decode(errors="replace")[-3000:]))
             txt = out.decode()
             vals = re.findall(r'"([0-9a-f\s]*)"', txt)
             vals = [bytes.fromhex(re.sub(r"\s+", "", v)) for v in vals]
